@@ -153,43 +153,32 @@ theorem reserialize_fixpoint_geneve (l : Geneve.Layer) (b b₂ : SBuf) (csum : B
       Geneve.decode old (contents b') foreign = .ok (d, false) ∧
       (contents b₂ = d.payload →
         ∃ b₃, Geneve.serialize d b₂ ⟨true, csum⟩ = .ok (b₃, d) ∧ contents b₃ = contents b') := by
-  obtain ⟨b', d, h1, h2, h3, h4, h5⟩ := roundtrip_geneve l b csum old foreign hwf hb
-  refine ⟨b', d, h1, h2, ?_⟩
-  intro hp
-  obtain ⟨_, hcan⟩ := decoded_wf_geneve old (contents b') foreign d false h2
-  obtain ⟨b₃, d₂, g1, g2, g3, g4, g5⟩ := roundtrip_canonical_geneve d b₂ ⟨true, csum⟩ old foreign hcan hb₂
-  refine ⟨b₃, g1, ?_⟩
-  -- both byte strings decode to layers with equal contents and payload
-  have hsp1 := Geneve.decode_cases old (contents b') foreign
-  have hsp3 := Geneve.decode_cases old (contents b₃) foreign
-  rw [h2] at hsp1
-  rw [g2] at hsp3
-  have e1 := Geneve.spec_encode d (contents b₂) hcan
-  -- contents b₃ = encode d ++ contents b₂
-  obtain ⟨x, hx, _, hxc⟩ := Geneve.serialize_spec d b₂ ⟨true, csum⟩ hb₂
-  have herr := Geneve.wf_serErr d (Geneve.canonical_wf d hcan)
-  have hb3 : contents b₃ = Geneve.encode d ++ contents b₂ := by
-    have hm := Geneve.canonical_mutated d ⟨true, csum⟩ hcan
-    have : Geneve.serialize d b₂ ⟨true, csum⟩ = .ok (x, Geneve.after d ⟨true, csum⟩) := by
-      unfold Geneve.serialize serView; rw [hx, herr]; rfl
-    rw [this] at g1
-    simp only [Res.ok.injEq, Prod.mk.injEq] at g1
-    rw [← g1.1, hxc herr, hm]
-  -- contents b' = d.contents ++ d.payload, and d.contents = encode d by decoding b₃
-  rw [hb3, ← h5, hp]
-  congr 1
-  have := hsp3
-  rw [hb3, e1] at this
-  simp only [Res.ok.injEq, Prod.mk.injEq] at this
-  have hd2 : d₂.contents = Geneve.encode d := by rw [this.1]
-  -- d₂ and d have the same fields, and contents of a decoded layer is its encoding:
-  have hsp1' := (Geneve.spec_canonical (contents b') d false hsp1.symm)
-  -- decode (encode d ++ payload) gives contents = encode d; the same holds for b' through injectivity
-  have e0 := Geneve.spec_encode d d.payload hcan
-  have hb' : contents b' = d.contents ++ d.payload := h5.symm
-  have hdec : Geneve.spec (d.contents ++ d.payload) = .ok (d, false) := by rw [← hb']; exact hsp1.symm
-  -- compare with decoding `encode d ++ d.payload`: both start with the same 8+options bytes
-  exact (Geneve.contents_eq_encode d hcan hdec).symm
+  obtain ⟨b', hser, _, hcont⟩ := Geneve.serialize_spec l b ⟨true, csum⟩ hb
+  have herr := Geneve.wf_serErr l hwf
+  have hc := hcont herr
+  have hcan := Geneve.mutated_canonical l csum hwf
+  have hafter : Geneve.after l ⟨true, csum⟩ = Geneve.mutated l ⟨true, csum⟩ := by
+    unfold Geneve.after; rw [herr]; rfl
+  generalize Geneve.mutated l ⟨true, csum⟩ = l' at hc hcan hafter
+  refine ⟨b', { l' with contents := Geneve.encode l', payload := contents b }, ?_, ?_, ?_⟩
+  · unfold Geneve.serialize serView; rw [hser, herr, hafter]; rfl
+  · rw [Geneve.decode_cases, hc, Geneve.spec_encode l' (contents b) hcan]
+  · intro hp
+    have hp' : contents b₂ = contents b := hp
+    have hcan3 : Geneve.canonical { l' with contents := Geneve.encode l', payload := contents b } := hcan
+    obtain ⟨b₃, hs3, _, hc3⟩ := Geneve.serialize_spec
+      { l' with contents := Geneve.encode l', payload := contents b } b₂ ⟨true, csum⟩ hb₂
+    have herr3 := Geneve.wf_serErr _ (Geneve.canonical_wf _ hcan3)
+    have hmut3 := Geneve.canonical_mutated _ ⟨true, csum⟩ hcan3
+    have hafter3 : Geneve.after { l' with contents := Geneve.encode l', payload := contents b } ⟨true, csum⟩
+        = { l' with contents := Geneve.encode l', payload := contents b } := by
+      unfold Geneve.after; rw [herr3]
+      simp only [Bool.false_eq_true, if_false]
+      exact hmut3
+    refine ⟨b₃, ?_, ?_⟩
+    · unfold Geneve.serialize serView; rw [hs3, herr3, hafter3]; rfl
+    · rw [hc3 herr3, hmut3, hc, hp']
+      rfl
 
 /-! #### witnesses for the defects of the unpatched Geneve decoder -/
 
